@@ -83,14 +83,17 @@ structure Dict where
   /-- `_transition_queue_dict` as the list `[(model, queue)]` of `AsyncMachine.__getstate__`:
       first components are the model *objects* -/
   qstore : Option (Tab (List Nat))
-  /-- `IdentManager.current` is a plain attribute (an integer): pickled as it is -/
+  /-- `IdentManager.current == get_ident()` as stored in the pickle -/
   identHeld : Bool
   deriving DecidableEq, Repr, Inhabited
 
 /-- no `__getstate__`: pickle takes `__dict__` as it is -/
 def defaultGetstate (M : PM) : Dict :=
   { models := M.models, mstate := M.mstate, mctx := M.mctx, ctx := some M.ctx, store := none,
-    graphs := some M.graphs, qdict := some M.qdict, qstore := none, identHeld := M.identHeld }
+    graphs := some M.graphs, qdict := some M.qdict, qstore := none,
+    -- `IdentManager.__getstate__` (as repaired, cf88f30) returns `{'current': 0}`: the thread that holds the
+    -- contexts while the snapshot is taken means nothing to the copy
+    identHeld := false }
 
 /-- `LockedMachine.__getstate__`: drop the id-keyed map, store the contexts keyed by model object -/
 def lockedGetstate (M : PM) : Dict :=
